@@ -398,7 +398,7 @@ def build_cpp(name, srcs, flags=None, libs=None, mpi=False, shim=False, sanitize
     base = ["-std=c++14", "-O1", "-g", "-D" + GUARD] + ["-D" + d for d in (defines or [])]
     if mpi:
         base.append("-DVERIF_WITH_MPI")
-    if sanitize is None and os.environ.get("VERIF_SANITIZE") and not mpi:
+    if sanitize is None and os.environ.get("VERIF_SANITIZE") and (not mpi or os.environ.get("VERIF_SANITIZE_MPI")):
         sanitize = os.environ["VERIF_SANITIZE"]          # C07: rebuild every harness with sanitizers
         name = name + "_" + sanitize
     if sanitize == "asan":
